@@ -812,7 +812,7 @@ func init() {
 			l.Add("fixed", c17Params{Entry: "packfile", Mut: "fixed", Fixed: append([]byte("PACK\x00\x00\x00\x01"), 0x9F, 0xFF, 0xFF, 0xFF, 0xFF, 0xFF, 0x7F)}, 21)
 			l.Add("fixed", c17Params{Entry: "get-block", Mut: "fixed", Fixed: []byte{0xFF, 0xFF, 0xFF, 0xFF, 0x0F, 0x00, 0x00}}, 22)
 			l.Add("fixed", c17Params{Entry: "uintlist", Mut: "fixed", Fixed: u32(0xFFFFFFFF)}, 23)
-			budget := l.N(600, 12000)
+			budget := l.N(600, 40000)
 			for _, e := range []string{"validate-strlist", "validate-block", "strlist-read", "strlist-readbytes", "block", "uintlist", "get-tableindex"} {
 				for corpus := 0; corpus < 3; corpus++ {
 					l.Add(e, c17Params{Entry: e, Corpus: corpus, Mut: "field2", Budget: budget}, 0)
